@@ -31,7 +31,9 @@ METHODS = [("BaseInt", "validate"), ("BaseFloat", "validate"), ("BaseComplex", "
            ("BaseInstance", "validate"), ("Type", "validate"), ("_NoneTrait", "validate"),
            ("Tuple", "validate"), ("Union", "validate")]
 # methods of traits/trait_handlers.py
-HANDLER_METHODS = [("TraitCompound", "validate"), ("TraitCompound", "slow_validate")]
+HANDLER_METHODS = [("TraitCompound", "validate"), ("TraitCompound", "slow_validate"),
+                   ("TraitCoerceType", "validate"), ("TraitCastType", "validate"), ("TraitInstance", "validate"), ("TraitFunction", "validate"),
+                   ("TraitEnum", "validate"), ("TraitMap", "validate")]
 
 
 class Unknown(Exception):
@@ -111,6 +113,8 @@ class Fn:
                     return "(.tupleZip %d %d %s %s %s)" % (i, j, ex, ey, E(g.elt))
                 return "(.unsupported %s)" % lstr(ast.unparse(n)[:60])
             if isinstance(f, ast.Name) and f.id in self.slots:
+                return "(.callVal %s %s)" % (E(f), self.args(n.args))
+            if isinstance(f, ast.Subscript) and isinstance(f.value, ast.Name) and f.value.id in self.slots:
                 return "(.callVal %s %s)" % (E(f), self.args(n.args))
             if isinstance(f, ast.Name):
                 if f.id in FUNCTIONS:
